@@ -25,6 +25,7 @@ RULE = (
 RULE += '; the same State instance may be recorded twice into one scope'
 RULE += '; template: block left, scope not yet completed (nested scope held open), another task records into it'
 RULE += '; every completion callback asks for the merged view twice, with two different merge functions'
+RULE += '; nested scopes with their own trace id and with disposables whose entering suspends'
 LEVEL_TEXT = (
     "Reference fold: the harness logs (scope, type, id, merge) for every record in execution order; in each scope's "
     "completion callback read(T) must equal the left fold of that scope's own records and metrics(merge=m) the "
@@ -226,8 +227,16 @@ def strategy(tier):
     def blocks(children):
         spawn = st.builds(lambda b: {"k": "spawn", "via": "ctx", "body": b}, st.one_of(task_body(), st.lists(children, min_size=1, max_size=1)))
         body = st.lists(st.one_of(rec, rec, sleep, spawn, children), min_size=1, max_size=5)
-        a_scope = st.builds(lambda n, b: {"k": "scope", "mode": "async", "name": n, "state": [], "disp": None, "disp_obj": False, "completion": "sync", "body": b}, names, body)
-        s_scope = st.builds(lambda n, b: {"k": "scope", "mode": "sync", "name": n, "state": [], "disp": None, "completion": "sync", "body": b}, names, body)
+        # a nested scope may carry its own trace id and disposables whose entering suspends (siblings get created meanwhile):
+        # neither changes where its values are folded into the merged views of the enclosing scopes
+        trace = st.sampled_from([None, None, None, "t1", "t2"])
+        slow = {"enter": {"b": "suspend_ok", "t": 0.5}, "yields": None, "exit": {"b": "ok"}, "as": "list"}
+        disp = st.sampled_from([None, None, None, [slow], [{**slow, "enter": {"b": "suspend_ok", "t": 0.25}}, slow]])
+        a_scope = st.builds(
+            lambda n, b, tr, d: {"k": "scope", "mode": "async", "name": n, "state": [], "disp": d, "disp_obj": False, "completion": "sync", "body": b, "trace": tr},
+            names, body, trace, disp,
+        )  # fmt: skip
+        s_scope = st.builds(lambda n, b, tr: {"k": "scope", "mode": "sync", "name": n, "state": [], "disp": None, "completion": "sync", "body": b, "trace": tr}, names, body, trace)
         return st.one_of(a_scope, a_scope, s_scope)
 
     block = st.recursive(blocks(rec), blocks, max_leaves=6)
